@@ -330,6 +330,31 @@ def same_up_to_single_child_rules(spec1, spec2):
     return same(spec1.root, spec2.root)
 
 
+def ne_profile(spec):
+    """(number of forward, number of reverse single-child rules that are not equivalences, is
+    one of them on a directed cycle of the specification?)"""
+    from comb_spec_searcher.strategies.rule import ReverseRule, Rule
+
+    rd = spec.rules_dict
+    ne = [c for c, r in rd.items() if isinstance(r, Rule) and len(r.children) == 1 and not r.is_equivalence()]
+    fwd = sum(1 for c in ne if not isinstance(rd[c], ReverseRule))
+
+    def reaches(src, target):
+        todo, seen = [src], set()
+        while todo:
+            x = todo.pop()
+            if x == target:
+                return True
+            if x in seen or x not in rd:
+                continue
+            seen.add(x)
+            todo.extend(rd[x].children)
+        return False
+
+    on_cycle = any(reaches(rd[c].children[0], c) for c in ne)
+    return fwd, len(ne) - fwd, on_cycle
+
+
 def has_split_chain(spec):
     from comb_spec_searcher.strategies.rule import Rule
 
@@ -430,7 +455,12 @@ def run_case(case):
             if why == "other" and case["variant"] == "eqpath" and not fin and \
                     any("minimise_ne" in p.get("inferral", ()) or p.get("sym") == "ne" for p in (case["p1"], case["p2"])):
                 try:
-                    if same_up_to_single_child_rules(spec1, spec2):
+                    # the open finding: the same tree up to single-child rules, the *same numbers*
+                    # of non-equivalence unary rules (forward / reverse) on both sides, and one of
+                    # them on a cycle - a pair in which one side has a unary rule the other side
+                    # lacks altogether is something else
+                    if same_up_to_single_child_rules(spec1, spec2) and ne_profile(spec1)[:2] == ne_profile(spec2)[:2] \
+                            and (ne_profile(spec1)[2] or ne_profile(spec2)[2]):
                         why = "non-equivalence-unary-rules-misaligned"
                 except Exception:  # noqa: BLE001
                     pass
